@@ -89,3 +89,10 @@ Theorem C03_export_text_is_the_exported_grid : forall rows, (forall r c, In r ro
    rows_of_text (render_rows rows) = filter (fun r => negb (empty_row r)) rows).
 Proof. intros rows H. exact (conj (export_read_back_file rows H) (export_read_back_text rows H)). Qed.
 Print Assumptions C03_export_text_is_the_exported_grid.
+
+(* and the canonical chord is exported verbatim: its notes joined by single blanks, each as a single note is exported *)
+From KV Require Import ChordFixedProofs.
+Theorem C03_chord_export_verbatim : forall D notes, notes <> [] -> chord_ok D notes -> Forall canonical_order notes ->
+  kern_tokenize all_cats (TChord (str (print_chord notes)) (map (chord_note D) notes)) = Ok (str (print_chord notes)).
+Proof. exact kern_export_canonical_chord. Qed.
+Print Assumptions C03_chord_export_verbatim.
